@@ -7,6 +7,7 @@ import (
 
 	"github.com/tetratelabs/wazero/verifharness/cfgreplay"
 	"github.com/tetratelabs/wazero/verifharness/fcache"
+	"github.com/tetratelabs/wazero/verifharness/linkreplay"
 	"github.com/tetratelabs/wazero/verifharness/memacc"
 	"github.com/tetratelabs/wazero/verifharness/memreplay"
 	"github.com/tetratelabs/wazero/verifharness/registry"
@@ -22,6 +23,7 @@ var cmds = map[string]func([]string){
 	"memory-concurrent": memreplay.Concurrent,
 	"replay-memacc":     memacc.Main,
 	"memacc-child":      memacc.Child,
+	"replay-link":       linkreplay.Main,
 	"fc-child":          fcache.Child,
 	"fc-replay":         fcache.ReplayProc,
 	"fc-gate":           fcache.ReplayGate,
